@@ -44,7 +44,7 @@ PLANS["C04"] = {
     "assumptions": ["slice() is only required to return Some for byte-aligned values; when it returns Some the bytes must match",
                     "verif_storage() is used to report which ownership classes were reached, never by the oracle"],
     "require": [need("append_unique_head_with_tail_slack", 50), need_set("storage_classes", 14), need_set("alignments", 64),
-                need("operand_rechecks", 100000), need("hostile_args", 1000), need_set("lang_words", 7)],
+                need("operand_rechecks", 100000), need("hostile_args", 1000), need("substr_starting_before_value", 500), need_set("lang_words", 7)],
 }
 
 PLANS["C05"] = {
@@ -136,7 +136,7 @@ PLANS["C15"] = {
         "quick": [("", "release", 40000), ("", "dev", 6000)],
         "thorough": [("", "release", 1600000), ("", "dev", 160000)],
     },
-    "rule": "a case is one program (even indices: a G1 control-flow program incl. failing and divergent ones; odd indices: a G2 typed "
+    "rule": "a case is one program (two thirds of them after an earlier program has left values, a word and a variable behind; even indices: a G1 control-flow program incl. failing and divergent ones; odd indices: a G2 typed "
             "word-soup program over the whole dictionary with binary input set) driven six ways from identical fresh interpreters: "
             "{eval, compile+run, compile+step*} x {recording off, on}; the six observations (result or error, visible stack, every "
             "variable, captured stdout) must be identical. distinct = distinct programs after literals are abstracted away",
@@ -144,7 +144,7 @@ PLANS["C15"] = {
                     "stopped at the same point in every drive mode and is compared like any other failing program"],
     "require": [need("programs_ok", 10000), need("programs_failing", 1000), need_set("reverse_step_variants", 14), need_set("opcodes", 18),
                 need_set("features", 30), need_set("error_kinds_compared", 8),
-                need("programs_stopped_by_insn_limit_compared", 1000)],
+                need("programs_stopped_by_insn_limit_compared", 1000), need("programs_after_an_earlier_program", 20000)],
 }
 
 G2_RULE = ("a G2 program is a typed word soup over the whole dictionary (collections, tags, bit-string reads and packers that move the "
@@ -278,8 +278,8 @@ PLANS["C10"] = {
     "rule": "4 of 5 cases: a history of 0..5 accepted sources is given to the subject and to a twin (a fresh interpreter, not a clone); "
             "the subject then gets a source that is rejected while building = optional completed prefix (push, print, definition, var, "
             "meta block redefining a constant, late word) + 0..2 of 15 unclosed structures (if begin do case-of case vec map tags def "
-            "meta enum and combinations) + one of 28 failing tokens (bad literals, unknown word, unbalanced closers, errors inside meta "
-            "blocks, failing immediate words, failing include) + one of 9 trailers with visible side effects; the dump hook must show "
+            "meta enum and combinations) + one of 33 failing tokens (bad literals, unknown word, unbalanced closers, errors inside meta "
+            "blocks, failing immediate words, failing include, failures inside text injected with ~) or inside an included file) + one of 9 trailers with visible side effects; the dump hook must show "
             "mode, nesting, pending flows, pending inputs, hidden/visible split, machine state, dictionary and code unchanged, and 2..6 "
             "probes (20 kinds, eval or compile+run) must give identical observations on subject and twin. 1 of 5 cases: a source that "
             "prints a marker and then fails at run time; later probes with known effect must succeed, push exactly their result and "
@@ -288,7 +288,7 @@ PLANS["C10"] = {
     "assumptions": ["the source counter (<buffer#N>) and the instruction meter legitimately move when a source is rejected",
                     "a source is 'rejected while building' when compile() returns the error, or eval() returns it without having added code"],
     "require": [need("rejected_sources", 100000), need("hook_invariants_checked", 100000), need("probes_compared", 300000),
-                need("runtime_failures", 20000), need("runtime_probes", 50000), need_set("failure_kinds", 26), need_set("open_structures", 60),
+                need("runtime_failures", 20000), need("runtime_probes", 50000), need_set("failure_kinds", 31), need_set("open_structures", 60),
                 need_set("probe_kinds", 19), need("repl_twin_sessions_compared", 60), need("repl_runtime_sessions_checked", 20)],
 }
 
